@@ -1,8 +1,8 @@
 #!/usr/bin/env python3
-"""tools/seed_matrix.py [SEED ...]: apply each stored seeded change to /repo's working tree, run the quick check of its
-property (plus the extra checks named in EXTRA), record exit code and VIOLATION lines, restore the tree.
-Writes seeded/DETECTION.json and the `detection` field of each meta.json.  Evidence files are rewritten by these runs:
-run the checks on the clean tree afterwards."""
+"""tools/seed_matrix.py [SEED ...]: apply each stored seeded change to a scratch worktree of /repo HEAD, run the quick
+check of its property (plus the extra checks named in EXTRA) from a snapshot copy of /verif with VERIF_REPO pointing at
+that worktree, record exit code and VIOLATION lines.  /repo, /verif/evidence and /verif/replays are not touched.
+Writes seeded/DETECTION.json and the `detection` field of each meta.json."""
 import json, os, subprocess, sys, time
 
 VERIF = os.path.dirname(os.path.dirname(os.path.abspath(__file__)))
@@ -15,42 +15,50 @@ def sh(cmd, **kw):
 
 def main():
     seeds = sys.argv[1:] or sorted(d for d in os.listdir(f"{VERIF}/seeded") if os.path.isdir(f"{VERIF}/seeded/{d}"))
-    assert sh("git -C /repo status --porcelain --untracked-files=no").stdout.strip() == "", "/repo not clean"
+    tag = os.getpid()
+    wt, snap = f"/tmp/wt_matrix_{tag}", f"/tmp/vf_snap_{tag}"
+    sh(f"git -C /repo worktree add -q --detach {wt} HEAD")
+    sh(f"rsync -a --exclude .git --exclude .venv --exclude evidence --exclude replays --exclude __pycache__ {VERIF}/ {snap}/")
+    os.symlink(f"{VERIF}/.venv", f"{snap}/.venv")
+    head = sh("git -C /repo rev-parse --short HEAD").stdout.strip()
     out = {}
     if os.path.exists(f"{VERIF}/seeded/DETECTION.json"):
         out = json.load(open(f"{VERIF}/seeded/DETECTION.json"))
-    for s in seeds:
-        d = f"{VERIF}/seeded/{s}"
-        meta = json.load(open(f"{d}/meta.json"))
-        prop = s.split("-")[0]
-        ap = sh(f"git -C /repo apply {d}/patch.diff")
-        rec = {"applies": ap.returncode == 0, "checks": {}}
-        try:
-            if ap.returncode == 0:
-                for p in [prop] + EXTRA.get(s, []):
-                    t0 = time.time()
-                    r = sh(f"./check {p} --tier quick", cwd=VERIF)
-                    vio = [ln for ln in r.stdout.splitlines() if ln.startswith("VIOLATION")]
-                    names = []
-                    for v in vio[:3]:
-                        rp = v.split("replay=")[1].split()[0]
-                        try:
-                            j = json.load(open(rp if rp.startswith("/") else f"{VERIF}/{rp}"))
-                            names.append(str(j.get("obligation") or j.get("check"))[:120])
-                        except Exception as e:  # noqa: BLE001
-                            names.append(f"?{type(e).__name__}")
-                    rec["checks"][p] = {"exit": r.returncode, "violations": len(vio), "first_obligations": names,
-                                        "no_failing_input_found": sum(v.endswith("no-failing-input-found") for v in vio),
-                                        "wall_s": round(time.time() - t0, 1)}
-        finally:
-            sh("git -C /repo checkout -- .")
-        rec["detected"] = any(c["exit"] == 1 and c["violations"] > 0 for c in rec["checks"].values())
-        out[s] = rec
-        meta["detection"] = rec
-        json.dump(meta, open(f"{d}/meta.json", "w"), indent=1)
-        json.dump(out, open(f"{VERIF}/seeded/DETECTION.json", "w"), indent=1, sort_keys=True)
-        print(s, rec["detected"], {p: (c["exit"], c["violations"]) for p, c in rec["checks"].items()}, flush=True)
-    assert sh("git -C /repo status --porcelain --untracked-files=no").stdout.strip() == ""
+    try:
+        for s in seeds:
+            d = f"{VERIF}/seeded/{s}"
+            meta = json.load(open(f"{d}/meta.json"))
+            prop = s.split("-")[0]
+            ap = sh(f"git -C {wt} apply {d}/patch.diff")
+            rec = {"applies": ap.returncode == 0, "checks": {}, "repo_head": head}
+            try:
+                if ap.returncode == 0:
+                    for p in [prop] + EXTRA.get(s, []):
+                        t0 = time.time()
+                        r = sh(f"./check {p} --tier quick", cwd=snap, env={**os.environ, "VERIF_REPO": wt})
+                        vio = [ln for ln in r.stdout.splitlines() if ln.startswith("VIOLATION")]
+                        names = []
+                        for v in vio[:3]:
+                            rp = v.split("replay=")[1].split()[0]
+                            try:
+                                j = json.load(open(rp if rp.startswith("/") else f"{snap}/{rp}"))
+                                names.append(str(j.get("obligation") or j.get("check"))[:120])
+                            except Exception as e:  # noqa: BLE001
+                                names.append(f"?{type(e).__name__}")
+                        rec["checks"][p] = {"exit": r.returncode, "violations": len(vio), "first_obligations": names,
+                                            "no_failing_input_found": sum(v.endswith("no-failing-input-found") for v in vio),
+                                            "wall_s": round(time.time() - t0, 1)}
+            finally:
+                sh(f"git -C {wt} checkout -- .")
+            rec["detected"] = any(c["exit"] == 1 and c["violations"] > 0 for c in rec["checks"].values())
+            out[s] = rec
+            meta["detection"] = rec
+            json.dump(meta, open(f"{d}/meta.json", "w"), indent=1)
+            json.dump(out, open(f"{VERIF}/seeded/DETECTION.json", "w"), indent=1, sort_keys=True)
+            print(s, rec["detected"], {p: (c["exit"], c["violations"]) for p, c in rec["checks"].items()}, flush=True)
+    finally:
+        sh(f"git -C /repo worktree remove --force {wt}")
+        sh(f"rm -rf {snap}")
 
 
 main()
